@@ -106,6 +106,12 @@ CHECKS = {
          'Histories cut inside dealing or showdown are not judged; hands ended by an explicit muck are not parsed back (the protocol has no muck action). Blinds only (no antes), as in the protocol.',
          'DESIGN.md section 4 C17'),
 
+ 'C20': ('model_checking',
+         'explicit-state exploration of no-limit hold\'em hands on the real State; every terminal hand rendered in six site formats for every button position (incl. dead button), seat numbering and hero seat, imported with the real HandHistory.from_<site> and replayed, compared with the hand that was rendered; uninterpretable variants of each log must be reported',
+         'Every terminal hand within k deviations over 2-4 seats (thorough 5-6), stacks from {6,9,14}, blinds 1/2, int and two-decimal chips, fold-outs, river showdowns and all-ins (site-specific all-in wording) x every button position x gapped / gapless seat numbers x hero seat x {PokerStars, Full Tilt, PartyPoker, iPoker XML, Ongame, Absolute}: the importer yields exactly one history with the players in position order, seats, blinds (heads-up reversal), stacks, min bet, betting actions in raise-to form, boards, hero / shown cards of the rendered hand, and its replay ends with the stacks the log states. Logs with an oversize raise or without the button line must raise ValueError (warning and no history with error_status off).',
+         'Weaker trusted base than the other checks: no site corpus is available offline, the renderers (refs/sites.py) encode layout and raise-amount conventions from public format knowledge cross-read against the importer\'s patterns, so the check decides consistency of importer and engine under those conventions. Metadata fields (winnings, finishing stacks) are not judged. One known finding (iPoker showdowns).',
+         'DESIGN.md section 4 C20'),
+
 }
 
 def main():
@@ -122,7 +128,7 @@ def main():
             'level_note': note,
             'technique': tech,
         })
-    na = [{'property_id': p['id'], 'reason': 'check not built yet (work in progress; planned as bounded exhaustive exploration, DESIGN.md section 4)'}
+    na = [{'property_id': p['id'], 'reason': 'no check registered'}
           for p in props if p['id'] not in CHECKS]
     m = {
      'version': 1,
